@@ -234,8 +234,69 @@ def gen_pdus(rng, n):
     return out[:n]
 
 
+def window_case(rng):
+    """an application that keeps a window of one outstanding submit_sm: its sending hook waits until the previous message has
+    been answered (the received hook releases it).  While the Sender waits there, the SMSC sends requests of its own: each
+    is answered at once, and every queued message goes out in the end."""
+    from aiosmpplib.protocol import SubmitSm
+    s = Sim(enquire_link_interval=1e6, socket_timeout=5.0)
+    fail = None
+    try:
+        s.smsc.submit_delay = lambda seq: 1.0
+        free = asyncio.Event()
+        free.set()
+        inner_s, inner_r = s.hook.sending, s.hook.received
+
+        async def sending(m, p, cid):
+            if type(m).__name__ == 'SubmitSm':
+                await free.wait()
+                free.clear()
+            await inner_s(m, p, cid)
+
+        async def received(m, p, cid):
+            if type(m).__name__ in ('SubmitSmResp', 'GenericNack'):
+                free.set()
+            await inner_r(m, p, cid)
+        s.hook.sending, s.hook.received = sending, received
+        n = rng.randrange(3, 6)
+        for k in range(n):
+            s.at(1.0 + 0.001 * k, s.enqueue, SubmitSm(short_message='w%d' % k, log_id='w%d' % k))
+        asked = []
+        for j in range(n):
+            t_q = round(1.2 + 1.0 * j + rng.uniform(0.0, 0.5), 3) + 0.0001
+            seq = 900 + j
+            kind = rng.choice((0x15, 5))
+            body = b'' if kind == 0x15 else (b'\x00' * 7 + b'\x00' + b'\x00' * 6 + b'\x00\x00' + b'\x02hi')
+            asked.append((t_q, seq))
+            s.at(t_q, lambda kind=kind, seq=seq, body=body: s.smsc.conns and s.smsc.conns[-1].feed(pdu(kind, 0, seq, body)))
+        s.at(1.0 + n * 1.0 + 5.0, s.stop)
+        s.run(200.0)
+        ev = list(s.events)
+        writes = [(e[0], e[3]) for e in ev if e[1] == 'write']
+        for t_q, seq in asked:
+            ans = [t for t, p in writes if len(p) >= 16 and struct.unpack('!I', p[4:8])[0] >= 0x80000000 and struct.unpack('!I', p[12:16])[0] == seq]
+            if not ans or ans[0] > t_q + 0.2:
+                fail = ('the request with sequence number %d, sent by the SMSC at %.3f while the Sender was waiting in the application\'s '
+                        'sending hook, was %s' % (seq, t_q, 'never answered' if not ans else 'answered only at %.3f' % ans[0]))
+                break
+        sent = [p for _t, p in writes if p[4:8] == b'\x00\x00\x00\x04']
+        if fail is None and len(sent) != n:
+            fail = '%d of the %d queued messages were written' % (len(sent), n)
+        ended = [e for e in ev if e[1] == 'start-ended']
+        if fail is None and (not ended or ended[0][2] is not None):
+            fail = 'start() %s' % ('still running' if not ended else 'ended with %s' % ended[0][2])
+    except Exception as e:      # noqa
+        fail = 'the scenario raised %r' % (e,)
+    finally:
+        s.close()
+    line = '# window-of-one'
+    return Case(line, line, ('window',), fail, {'op': 'window'})
+
+
 def generate(rng, tier):
     thorough = tier == 'thorough'
+    for _ in range(6 if thorough else 2):
+        yield window_case(rng)
     cmds, stats, reqs = known_enum()
     for _ in range(40 if thorough else 10):
         default = rng.choice(('gsm0338', 'gsm0338', 'ucs2', 'ascii', 'latin_1'))
@@ -460,6 +521,9 @@ def stream_case(rng, fixed=None):
 
 
 def replay(inp):
+    if inp.get('op') == 'window':
+        import random
+        return window_case(random.Random(1))
     cmds, stats, reqs = known_enum()
     if inp.get('op') == 'stream':
         return stream_case(None, fixed=(inp['kind'], inp['hex']))
